@@ -357,6 +357,16 @@ func polylinesOf(sps []oracle.Subpath, n int) []oracle.Polyline {
 	return out
 }
 
+func dropShort(pls []oracle.Polyline, minLen float64) []oracle.Polyline {
+	var out []oracle.Polyline
+	for _, pl := range pls {
+		if oracle.Length([]oracle.Polyline{pl}) >= minLen {
+			out = append(out, pl)
+		}
+	}
+	return out
+}
+
 // hausdorff between two lists of open polylines that should correspond one to one.
 func hausdorff(a, b []oracle.Polyline, limit float64) float64 {
 	if len(a) == len(b) {
@@ -392,6 +402,14 @@ func checkSplit(r *fw.R, it *item, tr *oracle.Trace, ts []float64) {
 		dec = append(dec, d)
 		desc += " [" + oracle.Fmt(pc.Data()) + "]"
 	}
+	for _, pc := range pieces {
+		for _, v := range pc.Data() {
+			if math.IsNaN(v) || math.IsInf(v, 0) {
+				viol(r, sps, "splitat-nan-coordinates"+sfx, "pieces:"+desc)
+				return
+			}
+		}
+	}
 	// 1. pieces are consecutive parts of the path: each piece equals the stretch of the original
 	//    between the cumulative true lengths of the pieces before it and including it
 	cum := []float64{0}
@@ -405,8 +423,8 @@ func checkSplit(r *fw.R, it *item, tr *oracle.Trace, ts []float64) {
 	}
 	gtol := 1e-4 * scale
 	for j, d := range dec {
-		want := tr.Between(cum[j], cum[j+1])
-		got := polylinesOf(d, 512)
+		want := tr.BetweenMin(cum[j], cum[j+1], gtol)
+		got := dropShort(polylinesOf(d, 512), gtol)
 		if h := hausdorff(got, want, gtol/2); h > gtol {
 			viol(r, sps, "splitat-pieces-are-not-the-path"+sfx, fmt.Sprintf("piece %d is not the stretch [%.6g,%.6g] of the path (Hausdorff %.3g); pieces:%s", j, cum[j], cum[j+1], h, desc))
 			return
